@@ -237,7 +237,9 @@ impl AutosarModel {
     // In the wild, only merging at the AR-PACKAGES and at the ELEMENTS level exists. Everything else seems like a bad idea anyway.
     fn merge_file_data(&self, new_root: &Element, new_file: WeakArxmlFile) -> Result<(), AutosarDataError> {
         let root = self.root_element();
-        let files: HashSet<WeakArxmlFile> = self.files().map(|f| f.downgrade()).collect();
+        // elements that exist only in the model are restricted to the files of their parent:
+        // for the sub elements of the root element these are the files the root element is in
+        let files: HashSet<WeakArxmlFile> = root.0.read().file_membership.clone();
 
         Self::merge_element(&root, &files, new_root, &new_file)?;
         self.root_element().0.write().file_membership.insert(new_file);
